@@ -1074,3 +1074,103 @@ Proof.
     { apply evalc_agrees; try done. intros x Hx. rewrite Hfree in Hx. apply elem_of_list_to_set in Hx. symmetry. by apply Hag. }
     unfold asm_holds in *. rewrite Forall_forall in H |- *. intros p Hp. rewrite <- (Heq p.1) by (by apply Hasm). by apply H.
 Qed.
+
+From CG Require Import Base.Cases.
+
+
+(* ================================================================================================ *)
+(* 16. the oracle's certificates: an accepted node order makes mk_g closed and acyclic; the list-level consistency
+       check implies `consistent`.  With consistent_unique this makes `simulate` THE consistent valuation. *)
+Definition nname (p : node) : string := p.1.1.1.
+Definition ninfo_of (p : node) : ninfo := {| n_ty := p.1.1.2; n_out := p.1.2; n_fi := list_to_set p.2 |}.
+Lemma mk_g_eq (l : list node) : mk_g l = list_to_map ((λ p, (nname p, ninfo_of p)) <$> l).
+Proof. reflexivity. Qed.
+Lemma mk_g_snoc (l : list node) (p : node) : nname p ∉ dom (mk_g l) → mk_g (l ++ [p]) = <[nname p := ninfo_of p]> (mk_g l).
+Proof.
+  intros Hn. rewrite !mk_g_eq, fmap_app. simpl. apply list_to_map_snoc.
+  rewrite mk_g_eq, dom_list_to_map_L in Hn. by rewrite elem_of_list_to_set in Hn.
+Qed.
+
+Lemma wf_step_false (l : list node) seen : (foldl wf_step (seen, false) l).2 = false.
+Proof. revert seen. induction l as [|p l IH]; intros seen; [done|]. simpl. apply IH. Qed.
+
+Lemma wf_inv (l : list node) S : foldl wf_step (∅, true) l = (S, true) →
+  S = dom (mk_g l) ∧ closed (mk_g l) ∧
+  ∃ rank : string → nat, (∀ n i f, mk_g l !! n = Some i → f ∈ n_fi i → rank f < rank n) ∧ ∀ x, x ∈ dom (mk_g l) → rank x < length l.
+Proof.
+  revert S. induction l as [|p l IH] using rev_ind; intros S.
+  - change (mk_g []) with (∅ : circuit). simpl. intros [= <-]. split; [by rewrite dom_empty_L|]. split; [intros n i f Hn; by rewrite lookup_empty in Hn|].
+    exists (λ _, 0). split; [intros n i f Hn; by rewrite lookup_empty in Hn|]. intros x. rewrite dom_empty_L. set_solver.
+  - rewrite foldl_app. simpl. destruct (foldl wf_step (∅, true) l) as [S0 ok0] eqn:E0. simpl.
+    destruct ok0; [|simpl; intros [= _ ?]; done].
+    intros [= <- Hok]. simpl in Hok.
+    apply andb_true_iff in Hok as [[Hnew%negb_true_iff%bool_decide_eq_false Hfi]%andb_true_iff Hnd%bool_decide_eq_true].
+    destruct (IH S0 eq_refl) as (-> & Hcl & rank & Hr & Hb).
+    rewrite forallb_forall in Hfi.
+    assert (Hfis : ∀ f, f ∈ p.2 → f ∈ dom (mk_g l)).
+    { intros f Hf. specialize (Hfi f ltac:(by apply elem_of_list_In)). by apply bool_decide_eq_true in Hfi. }
+    fold (nname p) in Hnew |- *. rewrite (mk_g_snoc l p Hnew). split; [by rewrite dom_insert_L|]. split.
+    + intros n i f Hn Hf. rewrite dom_insert_L. destruct (decide (n = nname p)) as [->|Hne].
+      * rewrite lookup_insert in Hn. injection Hn as <-. simpl in Hf. apply elem_of_list_to_set in Hf. set_solver.
+      * rewrite lookup_insert_ne in Hn by done. apply elem_of_union_r. eapply Hcl; eauto.
+    + exists (λ x, if decide (x = nname p) then length l else rank x). split.
+      * intros n i f Hn Hf. destruct (decide (n = nname p)) as [->|Hne].
+        -- rewrite lookup_insert in Hn. injection Hn as <-. simpl in Hf. apply elem_of_list_to_set in Hf.
+           pose proof (Hfis f Hf) as Hd. rewrite decide_False by (intros ->; done). by apply Hb.
+        -- rewrite lookup_insert_ne in Hn by done.
+           assert (f ∈ dom (mk_g l)) as Hd by (eapply Hcl; eauto).
+           rewrite decide_False by (intros ->; done). eauto.
+      * intros x. rewrite dom_insert_L, app_length. simpl. intros [->%elem_of_singleton|Hx]%elem_of_union.
+        -- rewrite decide_True by done. lia.
+        -- rewrite decide_False by (intros ->; done). specialize (Hb x Hx). lia.
+Qed.
+Theorem wf_order_sound (nodes : list node) : wf_order nodes = true → closed (mk_g nodes) ∧ acyclic (mk_g nodes).
+Proof.
+  unfold wf_order. destruct (foldl wf_step (∅, true) nodes) as [S ok] eqn:E. simpl. intros ->.
+  destruct (wf_inv nodes S E) as (_ & Hcl & rank & Hr & _). split; [done|]. by exists rank.
+Qed.
+
+Lemma lgate_gate_val t (v : val) fi : NoDup fi → lgate t v fi = gate_val t v (list_to_set fi).
+Proof.
+  intros Hnd. unfold lgate, gate_val. f_equal. change (gfold t (v <$> fi) = gfold t (v <$> elements (list_to_set fi : gset string))).
+  apply gfold_perm, fmap_Permutation. symmetry. by apply elements_list_to_set.
+Qed.
+Lemma lnode_okb_sound (v : val) p : NoDup p.2 → lnode_okb v p = true → node_ok v (nname p) (ninfo_of p).
+Proof.
+  destruct p as [[[n t] o] fi]. simpl. intros Hnd H. unfold node_ok, is_free, ninfo_of, nname. simpl.
+  assert (Hemp : ∀ x l, (list_to_set (x :: l) : gset string) ≠ ∅) by (intros x l; simpl; set_solver).
+  destruct t; simpl in *; try done;
+    try (rewrite <- lgate_gate_val by done; by apply eqb_prop);
+    try (by apply negb_true_iff); try (by apply Is_true_true).
+  all: destruct fi as [|x fi]; [by rewrite bool_decide_eq_true_2|];
+       rewrite bool_decide_eq_false_2 by apply Hemp; rewrite <- lgate_gate_val by done; by apply eqb_prop.
+Qed.
+Lemma wf_nodup (l : list node) seen ok p : (foldl wf_step (seen, ok) l).2 = true → p ∈ l → NoDup p.2.
+Proof.
+  revert seen ok. induction l as [|q l IH]; intros seen ok H Hp; [by apply elem_of_nil in Hp|].
+  simpl in H. destruct (wf_step (seen, ok) q) as [seen' ok'] eqn:E.
+  apply elem_of_cons in Hp as [->|Hp]; [|by eapply IH].
+  destruct ok'; [|by rewrite wf_step_false in H].
+  unfold wf_step in E. simpl in E. injection E as _ E. apply andb_true_iff in E as [_ E]. by apply bool_decide_eq_true in E.
+Qed.
+Theorem lnodes_okb_sound (nodes : list node) (v : val) : wf_order nodes = true → lnodes_okb nodes v = true → consistent (mk_g nodes) v.
+Proof.
+  intros Hwf Hok n i Hn. rewrite mk_g_eq in Hn. apply elem_of_list_to_map_2 in Hn.
+  apply elem_of_list_fmap in Hn as (p & [= -> ->] & Hp).
+  unfold lnodes_okb in Hok. rewrite forallb_forall in Hok. apply lnode_okb_sound; [|apply Hok; by apply elem_of_list_In].
+  by eapply wf_nodup.
+Qed.
+(* the certificate used by `holds`: the simulated valuation is consistent, and every consistent valuation with the same
+   inputs coincides with it on the whole circuit *)
+Theorem certificate_sound (nodes : list node) (free : list string) (a v w : val) :
+  wf_order nodes = true → free_nodes (mk_g nodes) = list_to_set free →
+  lnodes_okb nodes v = true → eq_on free v a = true →
+  consistent (mk_g nodes) v ∧
+  (consistent (mk_g nodes) w → (∀ s, s ∈ free → w s = a s) → agrees (dom (mk_g nodes)) w v).
+Proof.
+  intros Hwf Hfree Hok Heq. destruct (wf_order_sound nodes Hwf) as [Hcl [rank Hr]].
+  pose proof (lnodes_okb_sound nodes v Hwf Hok) as Hv. split; [done|]. intros Hw Hag.
+  apply (consistent_unique (mk_g nodes) rank Hr w v Hcl Hw Hv).
+  intros s Hs. rewrite Hfree in Hs. apply elem_of_list_to_set in Hs. rewrite (Hag s Hs).
+  symmetry. by apply (proj1 (eq_on_spec free v a) Heq).
+Qed.
